@@ -14,26 +14,33 @@ META = {
              "Tie: random DAGs of table-driven test operators on the real Graph::run where constants and borrowed inputs feed "
              "in-place capable buffer-overwriting operators and are requested as outputs; each strategy run twice on the same graph "
              "instance with unrelated requests (other inputs / outputs) in between; constants and borrowed inputs read back after "
-             "every run; results compared with each other and with the model's naive evaluation inside Coq."),
+             "every run; results compared with each other and with the model's naive evaluation inside Coq. Second family (run-time "
+             "differential testing): sequences of 2..4 DIFFERENT requests on one graph instance - input sets that shrink and grow, "
+             "intermediates supplied by the caller, output subsets, owned/borrowed mixes - where every outcome (values, error or panic) must "
+             "equal the outcome of the same request on a FRESH instance: the plan cache is the state that survives a run."),
     "note": ("Trusted: Coq kernel; correspondence sample; Rust's ownership discipline is what the heap model stands for (a view cannot be "
              "written in safe Rust) - the unsafe blocks of rten-tensor are C06's subject; thread-level float reduction order and real "
-             "operator kernels are not modelled (test operators are integer hashes); the plan cache is C22's subject."),
+             "operator kernels are not modelled (test operators are integer hashes); the plan cache's own invariants are C22's subject; its effect on run outcomes is exercised here by the sequence family."),
     "technique": "Coq proof (buffer-ownership invariant by induction over plan steps; corollary of the C02 simulation) + model/implementation correspondence",
 }
 GROUP = "exec"
 REQ = ("From RV Require Import Prelude.\nFrom Planner Require Import Graph.\n"
        "From Exec Require Import ExecModel ModelTestOps.\nOpen Scope N_scope.")
+REQ_S = ("From RV Require Import Prelude.\nFrom Planner Require Import Graph.\n"
+         "From Exec Require Import ExecModel ModelTestOps SeqModel.\nOpen Scope N_scope.\n"
+         "Notation case := scase (only parsing).")
 THEOREMS = ["C25_constants_never_written", "C25_borrowed_inputs_never_written", "C25_only_owned_buffers_run_in_place",
             "C25_run_is_function", "C25_runs_independent", "C25_prop_ok_reflect", "C25_nonvacuous"]
 
 
-def one_pass(ctx, name, cases, agree, prop_ok, show, shard, fn_name, classify=None):
+def one_pass(ctx, name, cases, agree, prop_ok, show, shard, fn_name, classify=None, req=None):
     """Evaluate the informational model-agreement function and the property oracle in ONE Coq pass
     over all cases (case terms are large), then hand only the cases that fail the oracle to
     ctx.correspond (which alarms, classifies known findings and writes replay files).
     Returns the indices on which the implementation deviates from the deterministic model."""
     import hashlib
-    dis, pf, err = ctx.coq_eval_cases(GROUP, REQ, [c["term"] for c in cases], agree, prop_ok, shard, tag="all")
+    req = req or REQ
+    dis, pf, err = ctx.coq_eval_cases(GROUP, req, [c["term"] for c in cases], agree, prop_ok, shard, tag="all")
     if err:
         raise vf.CheckerBroken("model evaluation failed for %s: %s" % (name, err))
     bad = set(pf)
@@ -51,7 +58,7 @@ def one_pass(ctx, name, cases, agree, prop_ok, show, shard, fn_name, classify=No
     ctx.log("correspondence %s: %d cases, %d fail the property oracle, %d deviate from the deterministic model"
             % (name, len(cases), len(pf), len(dis)))
     if pf:
-        ctx.correspond(name, GROUP, REQ, [cases[i] for i in pf], classify=classify, agree=prop_ok, prop_ok=prop_ok,
+        ctx.correspond(name, GROUP, req, [cases[i] for i in pf], classify=classify, agree=prop_ok, prop_ok=prop_ok,
                        show=show, shard=shard, fn_name=fn_name)
     else:
         ctx.corr.append({"name": name, "cases": len(cases), "disagree": 0, "property_failures": 0})
@@ -62,17 +69,32 @@ def main(ctx):
     ctx.rule = ("seeded random DAGs (1..10 test operators, all in-place capable, mostly buffer-overwriting) over 1..4 inputs and 0..2 "
                 "constants, tensors of 1..40 i32; run inputs / constants requested as outputs in half of the cases; 7 runs per case on one "
                 "graph instance (borrowed x2, mixed x2, pool off, owned, 2 threads) with an unrelated request before each; "
-                "non-trivial = at least one operator in the plan")
+                "non-trivial = at least one operator in the plan. Sequence family: seeded random DAGs over 2..4 inputs, 2..4 requests per case "
+                "(all inputs / all inputs + a caller-supplied intermediate / a subset of the previous outputs with exactly the inputs they need), "
+                "non-trivial = some request succeeds on a fresh instance")
     ctx.trusted += ["Rust ownership/borrowing (views are immutable) is what the heap model abstracts; unsafe code is out of scope (C06)",
                     "test operators (integer hashes) stand for real kernels; real kernels' determinism across threads is not covered"]
     ctx.assumptions += ["operators are deterministic and honour the Operator::run_in_place contract (C13)"]
     ctx.audit(GROUP, "planner")
     failed = ctx.prove(GROUP, "Props_C25", THEOREMS)
-    bindir = ctx.harness(GROUP, profile="release", bins=["c25"])
-    cases = ctx.gen_exec(bindir, "c25", ctx.n(250, 1500), inputs=ctx.replay_inputs())
-    oracle = "(fun c => prop_ok25 c && prop_ok c)"
-    dis = one_pass(ctx, "Graph::run-repeated", cases, "agree", oracle, "show", 16 if ctx.quick() else 40,
-                   "Exec.ModelTestOps.prop_ok25 (snapshots, run-twice equality, naive_eval)")
-    ctx.extra["executor_model_disagreements"] = len(dis)
+    ok, out = ctx.make(GROUP, ["SeqModel.vo"])
+    if not ok:
+        raise vf.CheckerBroken("SeqModel.v does not compile: " + out[-500:])
+    bindir = ctx.harness(GROUP, profile="release", bins=["c25", "c25s"])
+    replay = ctx.replay_inputs()
+    flat_replay = [l for l in replay if not l.startswith("S ")] if replay else None
+    seq_replay = [l for l in replay if l.startswith("S ")] if replay else None
+    # family 1: repeated runs of one request under different strategies, unrelated requests in between
+    if replay is None or flat_replay:
+        cases = ctx.gen_exec(bindir, "c25", ctx.n(200, 1500), inputs=flat_replay)
+        oracle = "(fun c => prop_ok25 c && prop_ok c)"
+        dis = one_pass(ctx, "Graph::run-repeated", cases, "agree", oracle, "show", 13 if ctx.quick() else 40,
+                       "Exec.ModelTestOps.prop_ok25 (snapshots, run-twice equality, naive_eval)")
+        ctx.extra["executor_model_disagreements"] = len(dis)
+    # family 2: sequences of DIFFERENT requests on one graph instance vs the same requests on fresh instances
+    if replay is None or seq_replay:
+        scases = ctx.gen_exec(bindir, "c25s", ctx.n(600, 6000), inputs=seq_replay)
+        one_pass(ctx, "Graph::run-sequence-vs-fresh", scases, "prop_okS", "prop_okS", "showS", 100,
+                 "the same request on a fresh graph instance (a run cannot affect later runs)", req=REQ_S)
     if failed and not ctx.violations:
         ctx.proof_broken(failed, "all correspondence cases of this run")
